@@ -18,13 +18,14 @@
    `Map::insert` is [assoc_set] (replace the value, keep the position).  The
    text round trip `to_string` / `from_str` is serde_json's and is the identity
    on these terms (finite f32 -> f64 -> shortest decimal -> f64 -> f32 is exact;
-   a NON-finite float is written as `null`, see [write_value]).
+   a NON-finite float is written as `null` — or substituted, see [write_value]).
    HashMap iteration order is the order of the model's association lists
    (the correspondence check compares saves as sorted maps).
 
    What the format does NOT carry is visible here as a field that the writer
    never reads and the loader fills with a constant:
-     Element.evaluation_stack_height_when_pushed, function_start_in_output_stream  -> 0
+     Element.evaluation_stack_height_when_pushed -> 0
+     Element.function_start_in_output_stream -> 0   unless [ssw_fstart_saved]
      StoryState.did_safe_exit, current_errors, current_warnings, patch   -> untouched by load
      Choice.is_invisible_default   -> false  (D10)   unless [ssw_invis_*]
      InkList.origins -> []; initial_origin_names only from "origins" (D11), which is written
@@ -40,7 +41,10 @@ Record save_switches := mkSaveSw {
   ssw_invis_written : bool;      (* write_choice writes "isInvisibleDefault":true for an invisible choice *)
   ssw_invis_read : bool;         (* jobject_to_choice reads it back *)
   ssw_origins_written : bool;    (* write_ink_list writes "origins" for an empty list with origin names *)
-  ssw_list_eq_origins : bool     (* val_equal compares the origin names of two empty lists *)
+  ssw_list_eq_origins : bool;    (* val_equal compares the origin names of two empty lists *)
+  ssw_float_eq_bits : bool;      (* val_equal compares floats bit for bit (f32 `==` otherwise) *)
+  ssw_nonfinite_subst : bool;    (* inf / NaN are written as +-3.4e38 / 0.0 (`null` otherwise) *)
+  ssw_fstart_saved : bool        (* Element.function_start_in_output_stream is written ("fnStart") and read *)
 }.
 
 (* ---------- small helpers ---------- *)
@@ -101,7 +105,13 @@ Definition write_value (v : value) : json :=
   match v with
   | VBool b => JBool b
   | VInt z => JInt z
-  | VFloat b => if f32_bits_finite b then JFloat b else JNull
+  | VFloat b =>
+      if f32_bits_finite b then JFloat b
+      else if ssw_nonfinite_subst sw then
+        (if f32_bits_nan b then JFloat 0                       (* 0.0 *)
+         else if (b =? 2139095040)%Z then JFloat 2139081118    (* +inf ->  3.4e38 *)
+         else JFloat 4286564766)                               (* -inf -> -3.4e38 *)
+      else JNull
   | VString s => if str_is_newline s then JStr [c_nl] else JStr (c_caret :: s)
   | VList l => write_ink_list l
   | VDivert p => JObj [jfield "^->" (JStr (path_string p))]
@@ -161,6 +171,7 @@ Definition write_element (e : element) : Res json :=
                  end;
   Ok (JObj (ptr_part
             ++ [jfield "exp" (JBool (el_inexpr e)); jfield "type" (JInt (pushpop_ord (el_type e)))]
+            ++ (if ssw_fstart_saved sw && negb (el_fstart e =? 0)%Z then [jfield "fnStart" (JInt (el_fstart e))] else [])
             ++ (if is_nil (el_temps e) then [] else [jfield "temp" (write_dictionary_values (el_temps e))]))).
 
 (* Thread::write_json *)
@@ -238,7 +249,7 @@ Definition val_equal (v d : value) : bool :=
   match v, d with
   | VBool a, VBool b => Bool.eqb a b
   | VInt a, VInt b => (a =? b)%Z
-  | VFloat a, VFloat b => f32_bits_ieee_eqb a b
+  | VFloat a, VFloat b => if ssw_float_eq_bits sw then (a =? b)%Z else f32_bits_ieee_eqb a b
   | VList a, VList b => list_val_equal a b
   | VString a, VString b => text_eqb a b
   | VDivert a, VDivert b => path_eqb a b
@@ -323,7 +334,10 @@ Definition read_element (j : json) : Res (option element) :=
                   | Some t => jobject_to_hashmap_values t
                   | None => Ok []
                   end;
-      Ok (Some (mkElement ptr inexpr temps pp 0 0%Z))
+      let fstart := if ssw_fstart_saved sw
+                    then match obind (oget o "fnStart") j_as_i64 with Some z => wrap32 z | None => 0%Z end
+                    else 0%Z in
+      Ok (Some (mkElement ptr inexpr temps pp 0 fstart))
   | _ => Ok None
   end.
 
@@ -610,9 +624,10 @@ End Save.
 
 (* ---------- the instances for the source as it is now ---------- *)
 Definition save_switches_now : save_switches :=
-  mkSaveSw choice_invisible_written choice_invisible_read list_origins_written list_equal_origins.
+  mkSaveSw choice_invisible_written choice_invisible_read list_origins_written list_equal_origins
+           float_equal_bits nonfinite_substituted function_start_saved.
 (* the format after the three repairs (pending/save-{1,2}.patch) *)
-Definition save_switches_repaired : save_switches := mkSaveSw true true true true.
+Definition save_switches_repaired : save_switches := mkSaveSw true true true true true true true.
 
 Definition write_state_now : world -> Res json := write_state ssite_panics save_switches_now.
 Definition load_state_now : world -> json -> out unit * world := load_state ssite_panics save_switches_now.
